@@ -738,7 +738,7 @@ class LinUnx(Exception):
     pass
 
 
-def linform(e, lets=None, depth=0):
+def linform(e, lets=None, depth=0, atom=None):
     """an integer expression as a linear form {name: coefficient, "": constant} over parameters / `self.<field>`s: literals,
     `+`, `-`, `saturating_sub` (read as `-`), casts, named locals (through `lets`, see local_inits - shadowing `let x = x + 1`
     is followed in order by the caller). Raises LinUnx on anything else."""
@@ -747,6 +747,10 @@ def linform(e, lets=None, depth=0):
         e = peel(e["e"] if e.get("k") != "Block" else e["expr"])
     if depth > 8:
         raise LinUnx("too deep")
+    if atom is not None:
+        nm = atom(e)
+        if nm is not None:
+            return {nm: 1, "": 0}
     lv = lit_value(e)
     if isinstance(lv, int) and not isinstance(lv, bool):
         return {"": lv}
@@ -755,19 +759,19 @@ def linform(e, lets=None, depth=0):
         return {e["name"]: 1, "": 0}
     if k == "Path" and e.get("res_kind") == "Local":
         if lets is not None and e["res"] in lets:
-            return linform(lets[e["res"]], lets, depth + 1)
+            return linform(lets[e["res"]], lets, depth + 1, atom)
         return {e["res"]: 1, "": 0}
     if k == "Unary" and e.get("op") == "Deref":
-        return linform(e["a"], lets, depth + 1)
+        return linform(e["a"], lets, depth + 1, atom)
     if k == "Binary" and e["op"] in ("Add", "Sub"):
-        a, b = linform(e["a"], lets, depth + 1), linform(e["b"], lets, depth + 1)
+        a, b = linform(e["a"], lets, depth + 1, atom), linform(e["b"], lets, depth + 1, atom)
         sgn = 1 if e["op"] == "Add" else -1
         out = dict(a)
         for n, c in b.items():
             out[n] = out.get(n, 0) + sgn * c
         return out
     if k == "MethodCall" and e["name"] in ("saturating_sub", "wrapping_sub", "saturating_add", "wrapping_add") and len(e["args"]) == 1:
-        a, b = linform(e["recv"], lets, depth + 1), linform(e["args"][0], lets, depth + 1)
+        a, b = linform(e["recv"], lets, depth + 1, atom), linform(e["args"][0], lets, depth + 1, atom)
         sgn = -1 if e["name"].endswith("sub") else 1
         out = dict(a)
         for n, c in b.items():
